@@ -86,6 +86,7 @@ C04.vis: parts that are not PER-visible (X.691 10.3.21; a PATTERN constraint sta
     invisible_only(m, ctx);
     size_set_operations(m, ctx);
     precedence(m, ctx, "C04.prec", true);
+    element_constraints(m, ctx);
     crate::rules::c09::value_chain(m, ctx, "C04.scope");
     let consts = const_resolver(m);
     let inl = inline_all(m, &["ASN1Value"]);
@@ -1022,4 +1023,58 @@ pub fn precedence(m: &Model, ctx: &mut Ctx, rule: &str, four: bool) {
     }
     ctx.oblige_n(&format!("{}/chains", rule), n);
     ctx.floor(&format!("{}/chains", rule), n, if four { 1000 } else { 500 });
+}
+
+
+/// C04.element: the bound attached to the *element* of a SEQUENCE OF / SET OF. An element written as a builtin type with a
+/// constraint gets a wrapper item that carries the annotation (`AnonymousL(pub u8)` with value("0..=7")). generate_sequence_or_set_of
+/// is evaluated with an element that is a *type reference carrying a constraint of its own* (`SEQUENCE OF Plain (0..7)`,
+/// `SET OF Str (SIZE (2))`): the constraint must reach a wrapper (generate_type) or an annotation — an element type rendered as
+/// the bare referenced type has lost it, and the PER encoding of the list differs from the one the ASN.1 type has.
+fn element_constraints(m: &Model, ctx: &mut Ctx) {
+    let rule = "C04.element";
+    let Some(f) = m.fns.iter().find(|f| f.name == "generate_sequence_or_set_of" && f.self_ty.as_deref() == Some("Rasn")) else {
+        ctx.fail_closed(rule, "anchor not found: Rasn::generate_sequence_or_set_of");
+        return;
+    };
+    let consts = const_resolver(m);
+    let seen = std::cell::RefCell::new(Vec::<String>::new());
+    let okv = |v: Val| Val::Ctor("Ok".into(), vec![v], BTreeMap::new());
+    let hook = |_: &Evaluator, name: &str, a: &[Val]| -> Option<Result<Val, String>> {
+        match name {
+            ".generate_type" => { seen.borrow_mut().push(a.get(1).map(|v| v.show()).unwrap_or_default()); Some(Ok(okv(Val::Sym("<ITEM>".into())))) }
+            ".format_range_annotations" | ".format_alphabet_annotations" => { seen.borrow_mut().push(a.get(2).map(|v| v.show()).unwrap_or_default()); Some(Ok(okv(Val::Sym("<RANGE>".into())))) }
+            ".to_rust_title_case" | ".to_rust_qualified_type" => Some(Ok(Val::Sym(a.last().map(|v| match v { Val::Str(s) | Val::Sym(s) => s.clone(), o => o.show() }).unwrap_or_default()))),
+            ".format_tag" | ".format_identifier_annotation" | ".format_comments" => Some(Ok(Val::Sym(String::new()))),
+            ".join_annotations" => Some(Ok(okv(Val::Sym("<ANNOTATIONS>".into())))),
+            "sequence_or_set_of_template" => Some(Ok(Val::Sym(format!("<LIST item={} member={}>", a.get(3).map(|v| v.show()).unwrap_or_default(), a.get(4).map(|v| v.show()).unwrap_or_default())))),
+            ".to_string" | ".clone" | ".to_token_stream" | ".unwrap_or_default" | ".as_ref" | ".as_deref" if a.len() == 1 => Some(Ok(match &a[0] { Val::Sym(s) => Val::Str(s.clone()), Val::Ctor(n, p, _) if n == "Some" => p.first().cloned().unwrap_or(Val::Unit), Val::Ctor(n, _, _) if n == "None" && name == ".unwrap_or_default" => Val::Sym(String::new()), o => o.clone() })),
+            _ => None,
+        }
+    };
+    let ev = Evaluator { consts: &consts, call_hook: &hook, inline: None };
+    let named = |n: &str, fields: Vec<(&str, Val)>| Val::Ctor(n.to_string(), vec![], fields.into_iter().map(|(k, v)| (k.to_string(), v)).collect::<BTreeMap<_, _>>());
+    let param = f.sig.inputs.iter().filter_map(|a| match a { syn::FnArg::Typed(t) => Some(tok(&t.pat)), _ => None }).next().unwrap_or("tld".into());
+    for (label, kind, constrained) in [("SEQUENCE OF Plain (0..7)", "SequenceOf", true), ("SET OF Plain (0..7)", "SetOf", true), ("SEQUENCE OF Plain", "SequenceOf", false)] {
+        ctx.oblige(rule, label, true);
+        seen.borrow_mut().clear();
+        let marker = Val::Sym("ELEMENT-CONSTRAINT-0..7".into());
+        let element = Val::Ctor("ElsewhereDeclaredType".into(), vec![named("DeclarationElsewhere", vec![("identifier", Val::Str("Plain".into())), ("module", Val::none()), ("parent", Val::none()), ("constraints", Val::List(if constrained { vec![marker.clone()] } else { vec![] }))])], BTreeMap::new());
+        let list = Val::Ctor(kind.into(), vec![named("SequenceOrSetOf", vec![("element_type", element), ("element_tag", Val::none()), ("constraints", Val::List(vec![])), ("is_recursive", Val::Bool(false))])], BTreeMap::new());
+        let tld = named("ToplevelTypeDefinition", vec![("name", Val::Str("L".into())), ("comments", Val::Str(String::new())), ("tag", Val::none()), ("ty", list), ("parameterization", Val::none()), ("module_header", Val::none())]);
+        let mut env = Env::new();
+        env.insert("self".into(), Val::ctor("Rasn"));
+        env.insert(param.clone(), tld);
+        match ev.eval_fn_body(&f.block, &mut env) {
+            Ok(_) => {
+                let reached = seen.borrow().iter().any(|s| s.contains("ELEMENT-CONSTRAINT-0..7"));
+                if constrained && !reached {
+                    ctx.violate(rule, "constrained-reference-element:constraint-dropped", &f.file, f.line,
+                        &format!("`L ::= {}`: the element's own constraint reaches neither a wrapper item nor an annotation — the list is declared over the bare referenced type (`SequenceOf<Plain>`), the bound (0..7) is gone without a warning, and the PER encoding of the elements is the unconstrained one (a builtin element, `SEQUENCE OF INTEGER (0..7)`, gets `AnonymousL(pub u8)` with value(\"0..=7\"))", label));
+                    break;
+                }
+            }
+            Err(e) => { ctx.fail_closed(rule, &format!("[{}]: {}", label, e)); break }
+        }
+    }
 }
